@@ -16,7 +16,9 @@ const METHODS = [
   { src: 'replaceAll' },
   { src: 'padEnd' },
   { src: 'padStart', dst: 'stringPadStart' },
-  { src: 'repeat' }
+  { src: 'repeat' },
+  // a DIRECT eval must stay direct (it sees the caller's scope)
+  { src: 'eval', allowedWithoutCallee: true }
 ]
 function cfg (methods, extra) {
   return Object.assign({ localVarPrefix: 'p', csiMethods: methods }, extra || {})
